@@ -50,7 +50,7 @@ def lean_lemma(tier):
                 time_s=round(time.time() - t0, 1), note=out[:500] if not ok else "no errors, no sorry")
 
 
-def halving_ratio(seed):
+def halving_ratio(seed, cases=6):
     """BOUNDED stand-in (not counted as proved): on a corpus of real powertrains the error against the closed form at a
     fixed time is <= C*dt and roughly halves when dt is halved (ratio in [1.6, 2.5])."""
     from gearpy.mechanical_objects import DCMotor, SpurGear, Flywheel
@@ -62,7 +62,7 @@ def halving_ratio(seed):
     worst = None
     cases = 0
     bad = []
-    for _ in range(6):
+    for _ in range(cases):
         n1, n2 = rng.randint(10, 30), rng.randint(20, 80)
         eff = rng.uniform(0.7, 1.0)
         Tl = rng.uniform(0.0, 4.0)
